@@ -630,6 +630,9 @@ func (s *Store) resolveWritePath(name string) (string, error) {
 		if strings.HasPrefix(rel, "../") || rel == ".." {
 			return "", ErrPathTraversalDisallowed
 		}
+		// write to the path that was checked: an absolute name is not cleaned
+		// by absPath, and ".." after a symbolic link resolves differently
+		path = target
 	}
 	if s.DisableOverwrite {
 		if _, err := os.Stat(path); err == nil {
